@@ -367,6 +367,15 @@ def unchangedAfter (seller : Nat) : List PIn → List TIn → Nat → Bool
   | [], [], _ => true
   | _, _, _ => false
 
+/-- some input at a position `k` with `k = seller` iff `wantSeller` has outpoint `op` and the
+given signedness: what an error naming `op` as the (un)signed seller/buyer input must point at -/
+def namesInput (seller : Nat) (wantSeller : Bool) (wantUnsigned : Bool) (op : OutPoint) :
+    List PIn → Nat → Bool
+  | [], _ => false
+  | i :: rest, k =>
+    ((k == seller) == wantSeller && i.outpoint == op && i.unsigned == wantUnsigned)
+      || namesInput seller wantSeller wantUnsigned op rest (k + 1)
+
 def sellerIndex (v : View) (ins : List PIn) : Option Nat :=
   match outgoing v.utxos ins 0 with
   | [(idx, _)] => some idx
